@@ -319,6 +319,9 @@ func vhNewMint(ppkActive, ppkInactive uint) *vhMint {
 	m.Ppk[ids[0]], m.Ppk[ids[1]] = ppkActive, ppkInactive
 	vhTheMint = m
 	if v.Native() {
+		if _, wrapped := http.DefaultTransport.(vhTransport); !wrapped {
+			http.DefaultTransport = vhTransport{in: http.DefaultTransport}
+		}
 		m.srv = httptest.NewServer(http.HandlerFunc(func(w http.ResponseWriter, r *http.Request) {
 			body, _ := io.ReadAll(r.Body)
 			status, resp := vhHTTP(r.Method, r.URL.Path, body)
@@ -328,6 +331,14 @@ func vhNewMint(ppkActive, ppkInactive uint) *vhMint {
 		m.URL = m.srv.URL
 	}
 	return m
+}
+
+// every request of the real client passes here in the caller's goroutine: a scheduling / crash point before it goes out
+type vhTransport struct{ in http.RoundTripper }
+
+func (t vhTransport) RoundTrip(r *http.Request) (*http.Response, error) {
+	v.Yield("HTTP." + strings.ToLower(r.Method))
+	return t.in.RoundTrip(r)
 }
 
 func (m *vhMint) pubKeys(id string) crypto.PublicKeys {
